@@ -65,6 +65,10 @@ def gen_cases(rng, tier):
         if name == "hb-pasha":
             spec["extra"]["brackets"] = 1
         yield spec
+    # best-configuration reporting: TuningStatus / print_best_metric_found and ExperimentResult.best_config
+    for _ in range(12 if tier == "quick" else 150):
+        yield {"status": True, "seed": rng.randrange(10 ** 9), "n_trials": rng.randint(1, 8),
+               "n_results": rng.randint(0, 30), "p_silent": rng.choice([0, 0.3, 0.6]), "nan": rng.random() < 0.3}
     # Hyperband family against the model, in pairs
     m = 30 if tier == "quick" else 400
     from props.c03 import gen_ctor
@@ -96,7 +100,62 @@ def flip(m):
     return "max" if m == "min" else "min"
 
 
+def run_status(spec):
+    """TuningStatus best trial and ExperimentResult.best_config: mode min on f vs mode max on -f"""
+    import random, datetime
+    import pandas as pd
+    from syne_tune.backend.trial_status import Trial
+    from syne_tune.tuning_status import TuningStatus, print_best_metric_found
+    from syne_tune.experiments.experiment_result import ExperimentResult
+    rng = random.Random(spec["seed"])
+    n = spec["n_trials"]
+    silent = [rng.random() < spec["p_silent"] for _ in range(n)]       # trials that never report
+    rows = []
+    for _ in range(spec["n_results"]):
+        t = rng.randrange(n)
+        if silent[t]:
+            continue
+        v = (rng.randrange(1, 1024) * 64 + len(rows)) / 65536.0       # pairwise distinct, negation exact
+        rows.append((t, v))
+    out = []
+    for mode, sign in (("min", 1.0), ("max", -1.0)):
+        st = TuningStatus(["loss"])
+        trials = {t: Trial(t, {"x": t}, datetime.datetime(2020, 1, 1)) for t in range(n)}
+        st.update({t: (trials[t], "in_progress") for t in range(n)}, [])
+        for t, v in rows:
+            st.update({t: (trials[t], "in_progress")}, [(t, {"loss": sign * v, "epoch": 1})])
+        with contextlib.redirect_stdout(io.StringIO()):
+            best = print_best_metric_found(st, ["loss"], mode)
+        res = None if best is None else (int(best[0]), float(sign * best[1]))
+        er_best = None
+        if rows:
+            df = pd.DataFrame({"trial_id": [t for t, _ in rows], "loss": [sign * v for _, v in rows], "x": [t for t, _ in rows]})
+            if spec.get("nan") and len(rows) > 2:
+                df.loc[1, "loss"] = float("nan")
+            er = ExperimentResult(name="e", results=df, metadata={"metric_names": ["loss"], "metric_mode": mode}, tuner=None, path=None)
+            er_best = int(er.best_config()["trial_id"])
+        out.append((res, er_best))
+    mon = []
+    if out[0][0] != out[1][0]:
+        mon.append({"signature": "c15:pair-diverges:tuning-status-best",
+                    "what": f"TuningStatus best trial: mode=min on f gives {out[0][0]}, mode=max on -f gives {out[1][0]} "
+                            f"({sum(silent)} of {n} trials without a result)", "detail": {"rows": rows[:20], "silent": silent}})
+    if out[0][1] != out[1][1]:
+        mon.append({"signature": "c15:pair-diverges:experiment-best-config",
+                    "what": f"ExperimentResult.best_config: mode=min on f gives trial {out[0][1]}, mode=max on -f gives {out[1][1]}",
+                    "detail": {"rows": rows[:20]}})
+    # the reported trial attains the optimum
+    if rows and out[0][0] is not None:
+        bt, bv = min(rows, key=lambda x: x[1])
+        if out[0][0] != (bt, bv):
+            mon.append({"signature": "c15:tuning-status-best-not-optimum",
+                        "what": f"TuningStatus reports {out[0][0]} but the minimum is trial {bt} value {bv}", "detail": {"rows": rows[:20]}})
+    return {"lines": [], "monitor": mon, "meta": {"hist": {"pair:tuning-status": 1}, "nontrivial": len(rows) >= 2}}
+
+
 def run_impl(spec):
+    if spec.get("status"):
+        return run_status(spec)
     if spec.get("hb"):
         # two model-checked runs; the pair is compared on decisions / suggestions / rung order
         a = hb.run_scenario(dict(spec, negate=False))
